@@ -371,6 +371,8 @@ class Interp(object):
         self.ser_calls = []
         self.files = {}
         self.events = []
+        self.forest = []          # the interpreter's own record of what it did (C01 oracle)
+        self.tnode = {}           # handle -> its shadow node
         self.shadow = {0: []}
         self.arec = {}
         self.lock = threading.Lock()
@@ -530,6 +532,20 @@ class Interp(object):
                 return False
         return W()
 
+    def shadow_parent_children(self, c):
+        st = self.shadow.setdefault(c, [])
+        if st and st[-1] in self.tnode:
+            return self.tnode[st[-1]]["children"]
+        return None
+
+    def shadow_msg(self, c, t, fs, h=None, ser=None):
+        node = {"k": "M", "type": type_name(t), "fields": fs, "ser": ser}
+        ch = self.tnode[h]["children"] if h is not None else self.shadow_parent_children(c)
+        if ch is None:
+            self.forest.append(node)
+        else:
+            ch.append(node)
+
     def push(self, c, h):
         self.shadow.setdefault(c, []).append(h)
 
@@ -585,6 +601,7 @@ class Interp(object):
         if k == "msg":
             _, t, fs, ser, api = st
             kw = self.fields(fs)
+            self.shadow_msg(c, t, fs, ser=ser if api == "typed" else None)
             if api == "typed" and ser is not None:
                 with self.window("msg", c, decl=ser, logged=fs, t=t):
                     self.call("MessageType.log", self.message_type(t, ser).log, **kw)
@@ -597,6 +614,7 @@ class Interp(object):
                 self.call("log_message", el.log_message, message_type=type_name(t), **kw)
         elif k == "actlog":
             _, h, t, fs = st
+            self.shadow_msg(c, t, fs, h=h)
             self.call("Action.log", self.actions[h].log, message_type=type_name(t), **self.fields(fs))
         elif k == "act":
             _, h, style, task, t, fs, sers, succ, body, api = st
@@ -604,6 +622,10 @@ class Interp(object):
             rec = {"exc": None, "task": bool(task), "parent": (st_now[-1] if st_now else None), "style": style,
                    "finished": False}
             self.arec[str(h)] = rec
+            node = {"k": "A", "type": type_name(t), "h": h, "start": fs, "sers": sers, "succ": succ, "children": [], "rec": rec}
+            pch = None if task else self.shadow_parent_children(c)
+            (self.forest if pch is None else pch).append(node)
+            self.tnode[h] = node
             self.cur_ctx = c
             a = self.start(st)
             if style == "with":
@@ -675,6 +697,7 @@ class Interp(object):
                 self.check_same(e, "try")
         elif k == "tb":
             e = self.make_exn(st[1])
+            self.shadow_msg(c, 2, [], ser=None)
             try:
                 raise e
             except BaseException:
@@ -686,6 +709,10 @@ class Interp(object):
             self.shadow[c2] = []
             self.arec[str(h2)] = {"exc": None, "task": False, "parent": None, "style": "remote", "finished": False,
                                   "remote_of": h}
+            node = {"k": "A", "type": "eliot:remote_task", "h": h2, "start": [], "sers": None, "succ": [], "children": [],
+                    "rec": self.arec[str(h2)]}
+            self.tnode[h]["children"].append(node)
+            self.tnode[h2] = node
 
             def in_thread_body(a2):
                 self.register(h2, a2)
@@ -792,6 +819,7 @@ class Interp(object):
         obs["notes"] = self.notes
         obs["arec"] = self.arec
         obs["events"] = self.events
+        obs["forest"] = self.forest
         obs["fails"] = {str(i): self.dests[i].fails for i in all_dest_ids(case)}
         obs["dest_exn"] = {str(i): self.dests[i].exn for i in all_dest_ids(case)}
         obs["files"] = {str(i): f.getvalue().decode("utf-8", "replace") for i, f in self.files.items()}
